@@ -411,3 +411,133 @@ pub fn strategy(max_ops: usize) -> BoxedStrategy<RootlessCase> {
     ];
     (proptest::collection::vec(0u8..3, 1..4), proptest::collection::vec(op, 1..max_ops)).prop_map(|(src_shape, ops)| RootlessCase { src_shape, ops }).boxed()
 }
+
+// ---------------------------------------------------------------------------
+// Fans of Refs: one clone call whose cloned set points at k distinct outside instances, half of them
+// present in the destination; counts around every power of two (a set that changes representation
+// at some size must keep what it held).
+
+#[derive(Clone, Debug, Serialize, Deserialize)]
+pub struct FanCase {
+    pub k: usize,
+    /// 0 clone_within, 1 clone_into_external, 2 clone_multiple_into_external (every pointer a root of
+    /// its own), 3 clone_into_external into a DOM without a root
+    pub mode: u8,
+}
+
+pub fn fan_cases(thorough: bool) -> Vec<FanCase> {
+    let mut ks: Vec<usize> = vec![0, 1, 2, 3, 5, 1_000];
+    for p in 3..=(if thorough { 16 } else { 12 }) {
+        for d in [-1i64, 0, 1, 2] {
+            ks.push(((1i64 << p) + d) as usize);
+        }
+    }
+    ks.sort();
+    ks.dedup();
+    let mut out = Vec::new();
+    for k in ks {
+        for mode in 0..4u8 {
+            out.push(FanCase { k, mode });
+        }
+    }
+    out
+}
+
+pub fn fan_body(c: &FanCase, ctx: &mut CaseCtx) -> PropResult {
+    ctx.nontrivial_if(c.k >= 2);
+    ctx.label(["fan:clone_within", "fan:clone_into_external", "fan:clone_multiple_into_external", "fan:into_rootless_destination"][c.mode as usize % 4]);
+    let r = crate::engine::catch(|| fan(c)).map_err(|info| fail("c11", "fan:panic", format!("a clone within its documented preconditions panicked: {}", info.msg)))?;
+    r
+}
+
+fn fan(c: &FanCase) -> Result<(), Fail> {
+    let k = c.k;
+    let mode = c.mode % 4;
+    let mut src = WeakDom::new(InstanceBuilder::new("DataModel"));
+    let sroot = src.root_ref();
+    let mut dest = if mode == 3 { WeakDom::default() } else { WeakDom::new(InstanceBuilder::new("DataModel")) };
+    let dparent = dest.root_ref(); // null for the rootless destination: parentless targets
+    let local_targets = src.insert(sroot, InstanceBuilder::new("Folder").with_name("targets"));
+    // target i lives in the source DOM when i is even, in the other DOM when odd
+    let targets: Vec<Ref> = (0..k)
+        .map(|i| {
+            let b = InstanceBuilder::new("Part").with_name(format!("Target{i}"));
+            if i % 2 == 0 {
+                src.insert(local_targets, b)
+            } else {
+                dest.insert(dparent, b)
+            }
+        })
+        .collect();
+    let holder = src.insert(sroot, InstanceBuilder::new("Model").with_name("holder"));
+    let pointer_refs: Vec<Ref> = (0..k).map(|_| Ref::new()).collect();
+    for i in 0..k {
+        let b = InstanceBuilder::new("ObjectValue")
+            .with_referent(pointer_refs[i])
+            .with_name(format!("Pointer{i}"))
+            .with_property("Value", Variant::Ref(targets[i]))
+            .with_property("Peer", Variant::Ref(pointer_refs[(i + 1) % k]))
+            .with_property("Up", Variant::Ref(holder))
+            .with_property("Nothing", Variant::Ref(Ref::none()));
+        src.insert(holder, b);
+    }
+    let copies: Vec<Ref> = match mode {
+        0 => {
+            let h = src.clone_within(holder);
+            src.get_by_ref(h).map(|h| h.children().to_vec()).unwrap_or_default()
+        }
+        2 => src.clone_multiple_into_external(&pointer_refs, &mut dest),
+        _ => {
+            let h = src.clone_into_external(holder, &mut dest);
+            dest.get_by_ref(h).map(|h| h.children().to_vec()).unwrap_or_default()
+        }
+    };
+    if copies.len() != k {
+        return Err(fail("c11", "fan:shape", format!("{k} pointers cloned, {} copies found", copies.len())));
+    }
+    let within = mode == 0;
+    let holder_cloned = mode != 2;
+    let home: &WeakDom = if within { &src } else { &dest };
+    for i in 0..k {
+        let Some(inst) = home.get_by_ref(copies[i]) else {
+            return Err(fail("c11", "fan:copy-missing", format!("copy #{i} of {k} is not in the destination")));
+        };
+        if inst.name != format!("Pointer{i}") {
+            return Err(fail("c11", "fan:order", format!("copy #{i} of {k} is named {}", inst.name)));
+        }
+        let get = |name: &str| match inst.properties.get(&rbx_dom_weak::ustr(name)) {
+            Some(Variant::Ref(r)) => Ok(*r),
+            other => Err(fail("c11", "fan:property-lost", format!("copy #{i} of {k}: {name} is {other:?}"))),
+        };
+        // outside the cloned set: kept iff the destination holds the target
+        let target_in_dest = if within { i % 2 == 0 } else { i % 2 == 1 };
+        let want = if target_in_dest { targets[i] } else { Ref::none() };
+        let got = get("Value")?;
+        if got != want {
+            let what = if target_in_dest { "fan:outside-ref-not-kept" } else { "fan:outside-ref-not-nulled" };
+            return Err(fail("c11", what, format!("clone mode {mode}, {k} distinct outside targets: copy #{i} points at {got} instead of {want} (its target is {} the destination)", if target_in_dest { "in" } else { "absent from" })));
+        }
+        // inside the cloned set: the peer's copy
+        let got = get("Peer")?;
+        if got != copies[(i + 1) % k] {
+            return Err(fail("c11", "fan:inside-ref", format!("clone mode {mode}, {k} pointers: Peer of copy #{i} is {got} instead of the copy of its peer {}", copies[(i + 1) % k])));
+        }
+        let got = get("Up")?;
+        let want = if holder_cloned { inst.parent() } else { Ref::none() };
+        // clone_multiple: the holder is outside the set and lives in the source only
+        if got != want {
+            return Err(fail("c11", "fan:ref-to-holder", format!("clone mode {mode}, {k} pointers: Up of copy #{i} is {got} instead of {want}")));
+        }
+        if get("Nothing")?.is_some() {
+            return Err(fail("c11", "fan:null-ref", format!("a null Ref of copy #{i} became {}", get("Nothing")?)));
+        }
+    }
+    // the source is untouched
+    for i in 0..k {
+        match src.get_by_ref(pointer_refs[i]).and_then(|p| p.properties.get(&rbx_dom_weak::ustr("Value"))) {
+            Some(Variant::Ref(r)) if *r == targets[i] => {}
+            other => return Err(fail("c11", "fan:source-changed", format!("pointer #{i} of the source now has Value {other:?}"))),
+        }
+    }
+    Ok(())
+}
